@@ -1,0 +1,111 @@
+//go:build verif
+
+// Contracts for the deductive verifier in /verif (gvc). This file contains comments only:
+// it adds no code to the package, with or without the "verif" build tag.
+
+package destructive
+
+//@ import "context"
+//@ import "strings"
+//@ import "ariga.io/atlas/sql/internal/sqlx"
+//@ import "ariga.io/atlas/sql/schema"
+//@ import "ariga.io/atlas/sql/sqlcheck"
+
+// ---------------------------------------------------------------------------------------
+// C18: the destructive-change analyzer reports a diagnostic, at the position of the statement
+// that causes it, for every drop of a schema / table / non-virtual column whose life-span in
+// the file is not temporary, writes no report for a file without such a change, and fails
+// (when configured to) exactly when it reported.
+//
+// Ghost: the reports handed to the pass's ReportWriter.
+//@ ghost var GvcReports int
+//@ ghost var GvcLastReport sqlcheck.Report
+//@ extern func (w sqlcheck.ReportWriter) WriteReport(r sqlcheck.Report)
+//@   effect GvcReports++; GvcLastReport = r
+
+// Life-spans are deterministic functions of the file's change list (assumed; the lazily built
+// span cache is not observable).  Their relation to "created earlier in the same file" is
+// checked separately (bounded) and has a known finding.
+//@ extern func (f *sqlcheck.File) SchemaSpan(s *schema.Schema) (r sqlcheck.ResourceSpan)
+//@   pure
+//@ extern func (f *sqlcheck.File) TableSpan(t *schema.Table) (r sqlcheck.ResourceSpan)
+//@   pure
+//@ extern func (f *sqlcheck.File) ColumnSpan(t *schema.Table, c *schema.Column) (r sqlcheck.ResourceSpan)
+//@   pure
+//@ extern func strings.ToUpper(s string) (r string)
+//@   pure
+
+// sqlx.Has(attrs, &g) for g a GeneratedExpr: whether the column carries a generated-expression
+// attribute, and its Type (uninterpreted functions of the attribute list).
+//@ spec func specHasGen(elements any) bool { panic("uninterpreted") }
+//@ func specHasGen(elements any) (b bool)
+//@   trusted
+//@   pure
+//@ spec func specGenType(elements any) string { panic("uninterpreted") }
+//@ func specGenType(elements any) (s string)
+//@   trusted
+//@   pure
+//@ extern func sqlx.Has(elements any, target any) (ok bool)
+//@   modifies struct(schema.GeneratedExpr)
+//@   ensures GvcIs[*schema.GeneratedExpr](target) ==> ok == specHasGen(elements) && (ok ==> target.(*schema.GeneratedExpr).Type == specGenType(elements))
+
+//@ spec func gvcNonVirtual(c *schema.Column) bool {
+//@ spec 	return !specHasGen(c.Attrs) || strings.ToUpper(specGenType(c.Attrs)) != "VIRTUAL"
+//@ spec }
+//@ rec gvcDropsTable
+//@ spec func gvcDropsTable(f *sqlcheck.File, c schema.Change) bool {
+//@ spec 	d, ok := c.(*schema.DropTable)
+//@ spec 	return ok && f.SchemaSpan(d.T.Schema) != sqlcheck.SpanDropped && f.TableSpan(d.T) != sqlcheck.SpanTemporary
+//@ spec }
+//@ rec gvcDropsSchema
+//@ spec func gvcDropsSchema(f *sqlcheck.File, c schema.Change) bool {
+//@ spec 	d, ok := c.(*schema.DropSchema)
+//@ spec 	return ok && f.SchemaSpan(d.S) != sqlcheck.SpanTemporary
+//@ spec }
+//@ rec gvcDropsColumn
+//@ spec func gvcDropsColumn(f *sqlcheck.File, t *schema.Table, c schema.Change) bool {
+//@ spec 	d, ok := c.(*schema.DropColumn)
+//@ spec 	return ok && f.ColumnSpan(t, d.C) != sqlcheck.SpanTemporary && gvcNonVirtual(d.C)
+//@ spec }
+//@ rec gvcChangeOK
+//@ spec func gvcChangeOK(c schema.Change) bool {
+//@ spec 	return (!GvcIs[*schema.DropSchema](c) || (c.(*schema.DropSchema) != nil && c.(*schema.DropSchema).S != nil)) &&
+//@ spec 		(!GvcIs[*schema.DropTable](c) || (c.(*schema.DropTable) != nil && c.(*schema.DropTable).T != nil)) &&
+//@ spec 		(!GvcIs[*schema.ModifyTable](c) || (c.(*schema.ModifyTable) != nil && c.(*schema.ModifyTable).T != nil))
+//@ spec }
+// a statement's change list contains a (non-temporary) table drop among its first n changes
+//@ rec gvcAnyDropsTable
+//@ spec func gvcAnyDropsTable(f *sqlcheck.File, sc *sqlcheck.Change, n int) bool {
+//@ spec 	if n <= 0 {
+//@ spec 		return false
+//@ spec 	}
+//@ spec 	return gvcDropsTable(f, sc.Changes[n-1]) || gvcAnyDropsTable(f, sc, n-1)
+//@ spec }
+//@ spec func gvcHasDiag(ds []sqlcheck.Diagnostic, code string, pos int) bool {
+//@ spec 	return (exists k int :: 0 <= k && k < len(ds) && ds[k].Code == code && ds[k].Pos == pos)
+//@ spec }
+
+//@ func (a *Analyzer) Analyze(ctx context.Context, p *sqlcheck.Pass) (err error)
+//@   requires a != nil && p != nil && p.File != nil && p.Reporter != nil
+//@   requires (forall i int :: 0 <= i && i < len(p.File.Changes) ==> p.File.Changes[i] != nil && p.File.Changes[i].Stmt != nil)
+//@   requires (forall i int, j int :: 0 <= i && i < len(p.File.Changes) && 0 <= j && j < len(p.File.Changes[i].Changes) ==> gvcChangeOK(p.File.Changes[i].Changes[j]))
+//@   requires (forall d *schema.DropColumn :: d != nil ==> d.C != nil)
+//@   requires (forall m *schema.ModifyTable, k int :: m != nil && 0 <= k && k < len(m.Changes) && GvcIs[*schema.DropColumn](m.Changes[k]) ==> m.Changes[k].(*schema.DropColumn) != nil)
+//@   modifies GvcReports, GvcLastReport, struct(schema.GeneratedExpr)
+//@   ensures at-most-one-report: GvcReports == old(GvcReports) || GvcReports == old(GvcReports)+1
+//@   ensures drop-table-flagged-at-its-statement: (forall i int :: 0 <= i && i < len(p.File.Changes) &&
+//@           gvcAnyDropsTable(p.File, p.File.Changes[i], len(p.File.Changes[i].Changes)) ==>
+//@           GvcReports == old(GvcReports)+1 && gvcHasDiag(GvcLastReport.Diagnostics, codeDropT, p.File.Changes[i].Stmt.Pos))
+//@   ensures failing-status-iff-reported: (err != nil) == (GvcReports == old(GvcReports)+1 && sqlx.V(a.Error))
+//@   loop 1 invariant (forall i int :: 0 <= i && i < loopk && gvcAnyDropsTable(p.File, p.File.Changes[i], len(p.File.Changes[i].Changes)) ==>
+//@           gvcHasDiag(diags, codeDropT, p.File.Changes[i].Stmt.Pos))
+//@   loop 2 invariant 0 <= loopi1 && loopi1 < len(p.File.Changes) && 0 <= loopk && loopk <= len(p.File.Changes[loopi1].Changes)
+//@   loop 2 invariant (forall i int :: 0 <= i && i < loopi1 && gvcAnyDropsTable(p.File, p.File.Changes[i], len(p.File.Changes[i].Changes)) ==>
+//@           gvcHasDiag(diags, codeDropT, p.File.Changes[i].Stmt.Pos))
+//@   loop 2 invariant gvcAnyDropsTable(p.File, p.File.Changes[loopi1], loopk) ==> gvcHasDiag(diags, codeDropT, p.File.Changes[loopi1].Stmt.Pos)
+//@   loop 1 localwrites
+//@   loop 2 localwrites
+//@   loop 3 localwrites
+//@   loop 1 invariant (diags == nil || GvcFresh(diags)) && (edits == nil || GvcFresh(edits))
+//@   loop 2 invariant (diags == nil || GvcFresh(diags)) && (edits == nil || GvcFresh(edits))
+//@   loop 3 invariant (diags == nil || GvcFresh(diags)) && (edits == nil || GvcFresh(edits)) && (names == nil || GvcFresh(names))
